@@ -31,6 +31,19 @@ def families(tier, rng):
             for nth in (1, 2):
                 sch = OBS_A + sc[:1] + [["fault", 1, op, nth]] + sc[1:-1] + PROBE + OBS_B
                 fam.append(("faultop:%s:%s" % (name, op), sch))
+    # two backend failures of one session in the same event-loop iteration: a transfer worker and the handler of a
+    # command sent meanwhile are both held inside a backend call, then both calls fail at once
+    login = [["connect", 1], ["send", 1, "USER u1"], ["send", 1, "PASS pw1"]]
+    for verb, arg, wop, data in (("RETR", "f", "read", None), ("STOR", "n1", "write", [1, 2, 3]), ("LIST", "", "list", None), ("MLSD", "d", "list", None)):
+        for hverb, hop in (("MLST f", "stat"), ("CWD d", "is_dir"), ("MLST d/g", "exists"), ("DELE nope", "exists")):
+            for order in (0, 1):
+                x = login + [["send", 1, "PASV"], ["dconnect", 1], ["gate", 1, wop, 1], ["send", 1, (verb + " " + arg).strip()]]
+                if data:
+                    x.append(["dsend", 1, data])
+                x += [["gate", 1, hop, 1], ["send", 1, hverb]]
+                x += [["failrelease", 1]] if order == 0 else [["tick", 5], ["failrelease", 1]]
+                x += [["deof", 1], ["send", 1, "PWD"]] + PROBE + OBS_B
+                fam.append(("double:%s:%s" % (verb, hop), OBS_A + x))
     return fam
 
 
